@@ -1191,6 +1191,68 @@ func runParseGate(c *Ctx, r *Reporter) {
 		if n == 0 {
 			r.Undecided("Parse has no return of a program")
 		}
+		// the main pass runs only when the signature pre-pass recorded no error: the pre-pass leaves nil types in
+		// signatures it could not parse (FuncDefStmt.ReturnType after "invalid return type"), and the main pass
+		// dereferences signature types without a nil test
+		prepassNil := ""
+		for _, ofn := range ssaFuncsOf(p, parserPkg) {
+			for _, b := range ofn.Blocks {
+				for _, ins := range b.Instrs {
+					st, ok := ins.(*ssa.Store)
+					if !ok {
+						continue
+					}
+					fa, ok := st.Addr.(*ssa.FieldAddr)
+					if !ok {
+						continue
+					}
+					named, field := fieldAddrInfo(fa)
+					if named == nil || named.Obj().Name() != "FuncDefStmt" {
+						continue
+					}
+					if call, ok := st.Val.(*ssa.Call); ok && call.Call.StaticCallee() != nil && call.Call.StaticCallee().Name() == "parseType" {
+						prepassNil = "FuncDefStmt." + field + " = parseType() in " + ofn.Name()
+					}
+				}
+			}
+		}
+		var parseCall *ssa.Call
+		for _, b := range sf.Blocks {
+			for _, ins := range b.Instrs {
+				if call, ok := ins.(*ssa.Call); ok && call.Call.StaticCallee() != nil && call.Call.StaticCallee().Name() == "parse" {
+					parseCall = call
+				}
+			}
+		}
+		switch {
+		case parseCall == nil:
+			r.Undecided("Parse does not call (*parser).parse")
+		case prepassNil == "":
+			r.Ok(fd.QName()+"#main-pass-after-clean-prepass", p.Rel(instrPos(parseCall)), "the signature pre-pass stores no possibly-nil type into a signature: nothing to gate")
+		default:
+			gated := false
+			for d := parseCall.Block(); d != nil; d = d.Idom() {
+				idom := d.Idom()
+				if idom == nil || len(idom.Instrs) == 0 {
+					continue
+				}
+				ifi, ok := idom.Instrs[len(idom.Instrs)-1].(*ssa.If)
+				if !ok {
+					continue
+				}
+				if bo, ok := ifi.Cond.(*ssa.BinOp); ok && bo.Op == token.GTR {
+					if call, ok := bo.X.(*ssa.Call); ok {
+						if bi, ok := call.Call.Value.(*ssa.Builtin); ok && bi.Name() == "len" && loadsField(call.Call.Args[0], "errors") && edgeDominates(idom, 1, parseCall.Block()) {
+							gated = true
+						}
+					}
+				}
+			}
+			r.Check(gated, fd.QName()+"#main-pass-after-clean-prepass", p.Rel(instrPos(parseCall)),
+				"the main pass runs only on the edge where the pre-pass recorded no error ("+prepassNil+" can be nil otherwise)",
+				"parser.parse() runs although newParser may have recorded errors: the pre-pass stores a nil type into a signature it cannot parse ("+prepassNil+
+					"), and the main pass dereferences signature types (validateBinaryType, combineTypes, accepts) — e.g. `func f:nun` plus `(f) + 1` crashes the parser")
+		}
 	} else {
 		r.Undecided("parser.Parse not found")
 	}
